@@ -27,6 +27,19 @@ from jsonpath.pointer import UNDEFINED
 from jsonpath.pointer import JSONPointer
 
 
+def _member_name(
+    parent: Mapping[object, object], key: Union[int, str]
+) -> Union[int, str]:
+    """Return the name of the object member addressed by reference token _key_.
+
+    `JSONPointer` holds index-like tokens as ints, but the names of JSON object
+    members are always strings.
+    """
+    if isinstance(key, int) and key not in parent:
+        return str(key)
+    return key
+
+
 class Op(ABC):
     """One of the JSON Patch operations."""
 
@@ -75,7 +88,7 @@ class OpAdd(Op):
             else:
                 parent.insert(int(target), self.value)
         elif isinstance(parent, MutableMapping):
-            parent[target] = self.value
+            parent[_member_name(parent, target)] = self.value
         else:
             raise JSONPatchError(
                 f"unexpected operation on {parent.__class__.__name__!r}"
@@ -116,8 +129,11 @@ class OpAddNe(OpAdd):
                 parent.append(self.value)
             else:
                 parent.insert(int(target), self.value)
-        elif isinstance(parent, MutableMapping) and target not in parent:
-            parent[target] = self.value
+        elif (
+            isinstance(parent, MutableMapping)
+            and _member_name(parent, target) not in parent
+        ):
+            parent[_member_name(parent, target)] = self.value
         return data
 
 
@@ -151,7 +167,7 @@ class OpAddAp(OpAdd):
             else:
                 parent.insert(int(target), self.value)
         elif isinstance(parent, MutableMapping):
-            parent[target] = self.value
+            parent[_member_name(parent, target)] = self.value
         else:
             raise JSONPatchError(
                 f"unexpected operation on {parent.__class__.__name__!r}"
@@ -184,7 +200,7 @@ class OpRemove(Op):
         elif isinstance(parent, MutableMapping):
             if obj is UNDEFINED:
                 raise JSONPatchError("can't remove nonexistent property")
-            del parent[self.path.parts[-1]]
+            del parent[_member_name(parent, self.path.parts[-1])]
         else:
             raise JSONPatchError(
                 f"unexpected operation on {parent.__class__.__name__!r}"
@@ -222,7 +238,7 @@ class OpReplace(Op):
         elif isinstance(parent, MutableMapping):
             if obj is UNDEFINED:
                 raise JSONPatchError("can't replace nonexistent property")
-            parent[self.path.parts[-1]] = self.value
+            parent[_member_name(parent, self.path.parts[-1])] = self.value
         else:
             raise JSONPatchError(
                 f"unexpected operation on {parent.__class__.__name__!r}"
@@ -260,7 +276,7 @@ class OpMove(Op):
         if isinstance(source_parent, MutableSequence):
             del source_parent[int(self.source.parts[-1])]
         if isinstance(source_parent, MutableMapping):
-            del source_parent[self.source.parts[-1]]
+            del source_parent[_member_name(source_parent, self.source.parts[-1])]
 
         # Adding to the destination follows the rules of the add operation,
         # including "-" and bounds checking for array indices.
